@@ -59,7 +59,8 @@ CONTRACTS = {
     "ShroudStrCopy": dict(assume=["ndest >= 0", "cap_src >= 0"], cap={"dest": "ndest", "src": "cap_src"},
                           cond=[("nsrc >= 0", "nsrc <= cap_src")], nul={"src": True}),
     "ShroudStrBlankFill": dict(assume=["ndest >= 0"], cap={"dest": "ndest"}, nul={}),
-    "ShroudStrAlloc": dict(assume=["nsrc >= 0", "ntrim >= -1", "ntrim <= nsrc"], cap={"src": "nsrc"}),
+    # the C string handed to the library can be written up to the declared Fortran length (intent inout)
+    "ShroudStrAlloc": dict(assume=["nsrc >= 0", "ntrim >= -1", "ntrim <= nsrc"], cap={"src": "nsrc"}, retcap="nsrc + 1"),
     "ShroudStrFree": dict(),
     "ShroudStrArrayAlloc": dict(assume=["nsrc >= 0", "len >= 0"], nonneg=["len"], cap={"src": ("nsrc", "len")}),
     "ShroudStrArrayFree": dict(assume=["nsrc >= 0"], cap={"src": "nsrc"}),
@@ -586,6 +587,29 @@ def rule_r6(repo, run, table):
               "ShroudStrToArray must record length() (0 for an empty string) and data()", repo.module("whelpers").loc(h.node))
 
 
+def rule_r7(repo, run, table):
+    R = run.rule("C10.R7", "a bufferified or CFI lookup never falls back to an entry without length arguments that "
+                           "copies text (over the lookup closure)")
+    from checks import c01
+    n = 0
+    have = set(x for name in table.resolve_all("c++") for x in [name])
+    for cpath, ce in sorted(c01.lookup_cpaths(table).items()):
+        suf = cpath[4]
+        if not suf or ce is None or cpath[1] not in ("char", "string"):
+            continue
+        n += 1
+        code = [l for l in ce.lines("pre_call") + ce.lines("post_call")
+                if re.search(r"strcpy|strncpy|ShroudStr|std::string|memcpy", l)]
+        fell_back = ("_" + suf) not in ce.name
+        run.check(R, "statements.fc_statements[%s]<-%s" % (ce.name, "_".join(x for x in cpath if x)),
+                  not (fell_back and code),
+                  "the lookup %s resolves to %s, which has no `%s` part but carries copy code (%s): the caller's length "
+                  "arguments are not passed and text is copied unbounded (strcpy) / without blank padding"
+                  % ([x for x in cpath if x], ce.name, suf, (code[0][:50] if code else "")), table.loc(ce.raw),
+                  sample=dict(lookup=[x for x in cpath if x], resolved=ce.name))
+    run.floor(R, "suffixed lookups", n, 30)
+
+
 def run(repo, run, tier):
     tables.check_model_assumptions(repo)
     helpers = tables.build_helper_table(repo)
@@ -596,6 +620,7 @@ def run(repo, run, tier):
     rule_r4(repo, run, helpers)
     rule_r5(repo, run)
     rule_r6(repo, run, table)
+    rule_r7(repo, run, table)
     run.assumptions.extend([
         "clang 14 as parser only (-fsyntax-only, JSON AST); helper contracts (what callers guarantee) are "
         "the table CONTRACTS in checks/c10.py, discharged at the call sites by C10.R2",
